@@ -379,6 +379,8 @@ class SMC(Sampler):
             self._quantiles = np.concatenate((np.full((self.state['round']), None), quantiles))
         else:
             thresholds = np.concatenate((np.full((self.state['round']), None), thresholds))
+            # Quantiles of an earlier call must not override the thresholds given now
+            self._quantiles = None
 
         self.objective.update(
             dict(
